@@ -138,6 +138,31 @@ func retryCheck(r *vrt.Result) string {
 	return ""
 }
 
+// retryTwiceCheck judges each invocation of the returned function on its own.
+func retryTwiceCheck(r *vrt.Result) string {
+	var parts [][]vrt.Event
+	for _, e := range r.Events {
+		if e.Kind == "invoke" {
+			parts = append(parts, nil)
+			continue
+		}
+		if len(parts) > 0 {
+			parts[len(parts)-1] = append(parts[len(parts)-1], e)
+		}
+	}
+	if len(parts) != 2 {
+		return baseCheck(r, true, true, true)
+	}
+	for i, ev := range parts {
+		sub := *r
+		sub.Events = ev
+		if m := retryCheck(&sub); m != "" {
+			return fmt.Sprintf("%s (invocation %d of the returned function)", m, i+1)
+		}
+	}
+	return ""
+}
+
 func retryCalcCheck(r *vrt.Result) string {
 	if m := baseCheck(r, true, true, true); m != "" {
 		return m
